@@ -132,6 +132,7 @@ type c14Case struct {
 	// FailWrite: the k-th probe write (1-based, 0 = none) fails after blocking for FailStallUs, while duplicates of
 	// the first probe's reply keep arriving around that instant (the error path of the sender runs while the
 	// receiver is matching replies)
+	SackTS      bool  `json:"sack_ts,omitempty"` // sack: the SYN-ACK carries the timestamps option
 	FailWrite   int   `json:"fail_write,omitempty"`
 	FailStallUs int64 `json:"fail_stall_us,omitempty"`
 }
@@ -259,7 +260,12 @@ func runC14x(t *testing.T, c *c14Case, stalls map[int]time.Duration) (err error,
 				return [][]rawItem{nil, nil, nil}
 			}
 			r := srv.Remotes[len(srv.Remotes)-1]
-			synack := tcpReply(target, tport, r.Addr(), r.Port(), 5, c.ISN, TCPSyn|TCPAck, []byte{2, 4, 5, 0xb4, 4, 2, 1, 1})
+			opts := []byte{2, 4, 5, 0xb4, 4, 2, 1, 1}
+			if c.SackTS {
+				// the target negotiates timestamps: the driver then carries per-connection timestamp state as well
+				opts = append(opts, 8, 10, 0x01, 0x02, 0x03, 0x04, 0x0a, 0x0b, 0x0c, 0x0d, 1, 1)
+			}
+			synack := tcpReply(target, tport, r.Addr(), r.Port(), 5, c.ISN, TCPSyn|TCPAck, opts)
 			return [][]rawItem{nil, {{0, synack}}, build(r.Port())}
 		}
 	} else {
@@ -312,6 +318,7 @@ func genC14(rt *rapid.T) *c14Case {
 	c.EchoBase = oneOf(rt, "echo_base", uint32(0), 0xfffe, 77)
 	c.ISN = oneOf(rt, "isn", uint32(1), 0xffffff00, 0x7fffffff)
 	c.Port = 33434
+	c.SackTS = c.Variant == "sack" && rapid.Bool().Draw(rt, "sack_ts")
 	for ttl := c.MinTTL; ttl <= c.MaxTTL; ttl++ {
 		// before / at / just after the send instant of the probe it answers
 		c.Offsets = append(c.Offsets, oneOf(rt, fmt.Sprintf("off%d", ttl), int64(-3000), -500, -1, 0, 0, 1, 50, 700))
